@@ -15,7 +15,7 @@ Structural clauses:
 Not decided: that the recorded line is the *right* line (shift by N) — value-level.
 """
 from .. import cfg, flow, errflow, query, callgraph
-from ..facts import op_place, norm_path
+from ..facts import op_place, norm_path, const_int
 
 EI = "minijinja::vm::Executor::eval_impl"
 PERR = "minijinja::vm::process_err"
@@ -211,6 +211,12 @@ def run(ctx):
                 t = f.term(sb)
                 if t["k"] == "switch" and any(v == "10" for v, _ in t["arms"]):
                     nl_test = True
+                elif t["k"] == "switch":
+                    # `if c == '\n'` instead of a match on the character
+                    cd_ = flow.cond_of(f, sb)
+                    if cd_.kind == "bin" and cd_.rv["op"] in ("Eq", "Ne") and any(
+                            const_int(cd_.rv[x]) == 10 for x in ("a", "b") if "c" in cd_.rv[x]):
+                        nl_test = True
             ok = path in lines_w and path in cols_w and nl_test
             ctx.ob("C14.F3.offset-writer-tracks-lines", tag + path, ok,
                    "this function moves Tokenizer::current_offset over input text but %s: after it skips a newline "
@@ -430,10 +436,17 @@ def origin_ok(fn, o, fname, depth):
             sides = []
             for side in ("a", "b"):
                 os_ = flow.origins(fn, o.rv[side])
-                if os_ and all(x.kind == "call" and x.call.name.endswith("char::methods::<impl char>::len_utf8")
-                               or (x.kind == "cast" and all(
-                    y.kind == "call" and y.call.name.endswith("<impl char>::len_utf8")
-                    for y in flow.origins(fn, x.rv["op"]))) for x in os_):
+
+                def _is_width(x):
+                    # the width of a character; nothing (0) where there is no character (`None => 0` at the end of input)
+                    if x.kind == "call" and x.call.name.endswith("char::methods::<impl char>::len_utf8"):
+                        return True
+                    if x.kind == "const" and x.const is not None and str(x.const.get("int")) == "0":
+                        return True
+                    if x.kind == "cast":
+                        return all(_is_width(y) for y in flow.origins(fn, x.rv["op"]))
+                    return False
+                if os_ and all(_is_width(x) for x in os_) and any(x.kind != "const" for x in os_):
                     sides.append("width")
                 else:
                     ok, why = span_value_ok(fn, {"k": "use", "op": o.rv[side]}, fname, depth + 1)
